@@ -48,8 +48,8 @@ def cases(tier):
                     out.append(dict(name="%s_n%d_u%d_%s" % (pi, nnon, nunexp, layout), pi=pi, nrep=nrep, nnon=nnon,
                                     nunexp=nunexp, layout=layout, alphas=alphas, estimands=["turnout"], weight=nnon * 2 + nrep))
     if tier == "thorough":
-        out.append(dict(name="np_two_alphas", pi="nonparametric", nrep=10, nnon=2, nunexp=1, layout="two_counties",
-                        alphas=[0.5, 0.8], estimands=["turnout"], weight=50))
+        out.append(dict(name="np_two_alphas", pi="nonparametric", nrep=5, nnon=2, nunexp=1, layout="two_counties",
+                        alphas=[0.5, 0.6], estimands=["turnout"], weight=50))
         out.append(dict(name="np_two_estimands", pi="nonparametric", nrep=4, nnon=2, nunexp=1, layout="two_counties",
                         alphas=[0.5], estimands=["dem", "turnout"], weight=40))
         out.append(dict(name="ga_two_estimands", pi="gaussian", nrep=7, nnon=1, nunexp=1, layout="two_counties",
